@@ -112,3 +112,25 @@ def coord_obs(obj, prj_names):
                 "pos": [int(obj.zone), fix.enc(obj.east), fix.enc(obj.north)]}
     return {"form": "?" + t, "notn": "na", "ell": opt(None), "orth": opt(None), "nval": opt(None),
             "prjlab": "na", "hemi": "na", "pay": repr(obj), "pos": [[0], [0], [0]]}
+
+
+def build(cls, *args):
+    """build a library object (Ellipsoid, Projection, TransformationSD ...) and remember the numbers it was BUILT WITH: the
+    specification is given those, not what the object's attributes say afterwards (a constructor that truncates, rounds or drops an
+    argument would otherwise be read back into the oracle)"""
+    obj = cls(*args)
+    try:
+        obj._verif_defn = tuple(args)
+    except Exception:
+        pass
+    return obj
+
+
+def defn(obj, *attrs):
+    """the defining numbers of an object: its constructor arguments if the driver built it (build), else the named attributes
+    (shipped constants: their published values are stated in the specification)"""
+    d = getattr(obj, "_verif_defn", None)
+    if d is not None:
+        return tuple(float(x) for x in d[:len(attrs)])
+    return tuple(float(getattr(obj, a)) for a in attrs)
+
